@@ -340,7 +340,7 @@ class HostVector:
 
     def copy(self):
         vector_copy = np.copy(self.vector)
-        return HostVector(vector_copy)
+        return type(self)(vector_copy)
 
     def numpy(self):
         return self.vector
@@ -430,6 +430,15 @@ class HostVector:
             readable_dict[f"{proc_name}"] = hvec.is_running_process(proc_name)
 
         return readable_dict
+
+    @classmethod
+    def for_scenario(cls):
+        """Get a new HostVector class with it's own vector layout.
+
+        This is used so that states of different scenarios can be used at the
+        same time within a single python session
+        """
+        return type(cls.__name__, (cls,), {"address_space_bounds": None})
 
     @classmethod
     def reset(cls):
